@@ -100,3 +100,20 @@ package services
 //@ fieldwriters BasicService.startFn only none property C17
 //@ fieldwriters BasicService.runningFn only none property C17
 //@ fieldwriters BasicService.stoppingFn only none property C17
+//@
+//@ # ---- manager: one observed transition of one service (runs under the manager's lock) ----------------------
+//@ # Waiters for "healthy" are released exactly when healthy is reached or can no longer be reached: all services
+//@ # Running, or some service already Stopping / Terminated / Failed (none of these ever runs again).
+//@ assume func Manager.notifyListeners
+//@   modifies nothing
+//@ func Manager.serviceStateChanged
+//@   property C17
+//@   requires !isnil(m.byState) && len(m.services) >= 1
+//@   loop 0 invariant same(fs, $coll) && same(m, old(m))
+//@   ensures  healthy_released: (old(m).healthyClosed || len(get(m.byState, Running)) == len(m.services) ||
+//@              len(get(m.byState, Stopping)) + len(get(m.byState, Terminated)) + len(get(m.byState, Failed)) > 0) ==> m.healthyClosed
+//@   ensures  healthy_not_early: m.healthyClosed ==> (old(m).healthyClosed || len(get(m.byState, Running)) == len(m.services) ||
+//@              len(get(m.byState, Stopping)) + len(get(m.byState, Terminated)) + len(get(m.byState, Failed)) > 0)
+//@   ensures  healthy_state: m.state == healthy <==> len(get(m.byState, Running)) == len(m.services)
+//@   ensures  stopped_state: m.state == stopped <==> (len(get(m.byState, Running)) != len(m.services) && len(get(m.byState, Terminated)) + len(get(m.byState, Failed)) == len(m.services))
+//@   ensures  moved: len(get(m.byState, to)) >= 1
